@@ -203,15 +203,20 @@ def createDirAllLoop (m : FMap) : List Str → Res Unit × FMap
 def pCreateDirAll (m : FMap) (p : Str) : Res Unit × FMap :=
   if p = [] then (.ok (), m) else createDirAllLoop m (VPath.dirPrefixes p)
 
+/- ADAPTED (ensure_has_parent now requires the parent to be an existing DIRECTORY): the
+hypothesis `m.contains (parentInternal d)` of the next two lemmas became "the parent is a
+directory"; with a file as parent `create_dir` now fails with `Other`. -/
 theorem createDir_fresh (m : FMap) (d : Str) (hs : '/' ∈ d)
-    (hp : m.contains (parentInternal d) = true) (hd : m.find? d = none) :
+    (hp : ∃ pe, m.find? (parentInternal d) = some pe ∧ pe.ftype = .dir) (hd : m.find? d = none) :
     createDir m d = (.ok (), m.insert d dirEntryNow) := by
-  simp [createDir, ensureHasParent, hs, hp, hd]
+  obtain ⟨pe, hpe, hpd⟩ := hp
+  simp [createDir, ensureHasParent, hs, hpe, hpd, hd]
 
 theorem createDir_present (m : FMap) (d : Str) (e : Entry) (hs : '/' ∈ d)
-    (hp : m.contains (parentInternal d) = true) (hd : m.find? d = some e) :
+    (hp : ∃ pe, m.find? (parentInternal d) = some pe ∧ pe.ftype = .dir) (hd : m.find? d = some e) :
     createDir m d = (if e.ftype = .file then fail .fileExists else fail .dirExists, m) := by
-  simp [createDir, ensureHasParent, hs, hp, hd]
+  obtain ⟨pe, hpe, hpd⟩ := hp
+  simp [createDir, ensureHasParent, hs, hpe, hpd, hd]
 
 theorem createDirAllLoop_append (m : FMap) (a b : List Str)
     (h : (createDirAllLoop m a).1 = .ok ()) :
@@ -310,8 +315,8 @@ theorem createDirAllLoop_chain (m : FMap) (hm : WF m) (cs : List Str) :
     have hs : '/' ∈ renderC (l ++ [c]) := by rw [hd]; simp
     have hpar : parentInternal (renderC (l ++ [c])) = renderC l := by
       rw [hd]; exact parent_of_child _ _ hc
-    have hcont : m1.contains (parentInternal (renderC (l ++ [c]))) = true := by
-      rw [hpar]; exact hmade.parent_contained
+    have hcont : ∃ pe, m1.find? (parentInternal (renderC (l ++ [c]))) = some pe ∧ pe.ftype = .dir := by
+      rw [hpar]; exact hmade.parent_dir
     have hsame : m1.find? (renderC (l ++ [c])) = m.find? (renderC (l ++ [c])) :=
       hmade.frame _ (snoc_not_mem_chain l c)
     cases hf : m.find? (renderC (l ++ [c])) with
@@ -386,8 +391,8 @@ theorem createDirAllLoop_file (m : FMap) (hm : WF m) (a b : List Str) (c : Str) 
   have hs : '/' ∈ renderC (a ++ [c]) := by rw [hd]; simp
   have hpar : parentInternal (renderC (a ++ [c])) = renderC a := by
     rw [hd]; exact parent_of_child _ _ hc
-  have hcont : m1.contains (parentInternal (renderC (a ++ [c]))) = true := by
-    rw [hpar]; exact hmade.parent_contained
+  have hcont : ∃ pe, m1.find? (parentInternal (renderC (a ++ [c]))) = some pe ∧ pe.ftype = .dir := by
+    rw [hpar]; exact hmade.parent_dir
   have hsame : m1.find? (renderC (a ++ [c])) = some e := by
     rw [hmade.frame _ (snoc_not_mem_chain a c)]; exact hfile
   simp only [List.singleton_append, Mem.createDirAllLoop, Mem.createDir_present m1 _ e hs hcont hsame,
@@ -401,8 +406,8 @@ theorem createDirAllLoop_existing (m : FMap) (hm : WF m) (ds : List Str)
   | nil => rfl
   | cons d rest ih =>
     obtain ⟨hne, e, he, hd⟩ := h d (by simp)
-    obtain ⟨hs, pe, hpe, _⟩ := hm.2 d e he hne
-    have hcont : m.contains (parentInternal d) = true := (FMap.contains_iff _ _).2 ⟨pe, hpe⟩
+    obtain ⟨hs, pe, hpe, hpd⟩ := hm.2 d e he hne
+    have hcont : ∃ pe, m.find? (parentInternal d) = some pe ∧ pe.ftype = .dir := ⟨pe, hpe, hpd⟩
     have hnotfile : ¬ e.ftype = .file := by rw [hd]; decide
     simp only [Mem.createDirAllLoop, Mem.createDir_present m d e hs hcont he, hnotfile, ↓reduceIte, fail]
     exact ih (fun x hx => h x (by simp [hx]))
@@ -508,7 +513,7 @@ theorem FreshDest.parentOk {m : FMap} {d : Str} (h : FreshDest m d) : Mem.parent
 theorem FreshDest.createFile {m : FMap} {d : Str} (h : FreshDest m d) :
     Mem.createFile m d = (.ok (), m.insert d fileEntryNow) := by
   obtain ⟨pe, hpe, hpd⟩ := h.parent
-  simp [Mem.createFile, Mem.ensureHasParent, h.slash, FMap.contains, hpe, h.absent]
+  simp [Mem.createFile, Mem.ensureHasParent, h.slash, hpe, hpd, h.absent]
 
 theorem FreshDest.pWrite {m : FMap} {d : Str} (h : FreshDest m d) (c : Bytes) :
     Mem.pWrite m d c = (.ok (), memPublish (m.insert d fileEntryNow) d c) := by
@@ -518,10 +523,21 @@ theorem find?_publish_fresh (m : FMap) (d : Str) (c : Bytes) (k : Str) :
     (memPublish (m.insert d fileEntryNow) d c).find? k =
       if k = d then some (copiedEntry c) else m.find? k := by
   unfold memPublish
-  simp only [FMap.find?_insert_self, FMap.find?_insert]
+  have hft : fileEntryNow.ftype = .file := rfl
+  simp only [FMap.find?_insert_self, hft, ↓reduceIte, FMap.find?_insert]
   split
   · rfl
   · rfl
+
+/-- publishing keeps the keys unique (it is an insertion, or nothing) -/
+theorem nodup_memPublish (m : FMap) (d : Str) (c : Bytes) (h : FMap.NodupKeys m) :
+    FMap.NodupKeys (memPublish m d c) := by
+  unfold memPublish
+  split
+  · split
+    · exact FMap.nodup_insert _ _ _ h
+    · exact h
+  · exact h
 
 /-- an insertion elsewhere keeps the destination fresh, provided it does not replace the parent
 directory by a file -/
@@ -597,7 +613,7 @@ theorem copyFile_mem {w : World} {i j : Nat} {ms md : FMap}
           rw [hd1.pWrite] at h2
           exact ⟨h2, h2⟩
         · have h2 : FMap.NodupKeys (memPublish ((md.insert s (touched e)).insert d fileEntryNow) d e.content) :=
-            FMap.nodup_insert _ _ _ (FMap.nodup_insert _ _ _ (FMap.nodup_insert _ _ _ hnd))
+            nodup_memPublish _ _ _ (FMap.nodup_insert _ _ _ (FMap.nodup_insert _ _ _ hnd))
           exact ⟨h2, h2⟩
   · have hd1 : MemLeafAt (w.setLeafFiles i (ms.insert s (touched e))) j md := hj.set_ne hij _
     refine ⟨(w.setLeafFiles i (ms.insert s (touched e))).setLeafFiles j
@@ -618,7 +634,7 @@ theorem copyFile_mem {w : World} {i j : Nat} {ms md : FMap}
         have e2 := hmd'.unique (hd1.set _)
         subst e1; subst e2
         refine ⟨fun hwfs hwfd => ⟨hwfs.setTime s e _ hs rfl, ?_⟩, fun hns hnd =>
-          ⟨FMap.nodup_insert _ _ _ hns, FMap.nodup_insert _ _ _ (FMap.nodup_insert _ _ _ hnd)⟩⟩
+          ⟨FMap.nodup_insert _ _ _ hns, nodup_memPublish _ _ _ (FMap.nodup_insert _ _ _ hnd)⟩⟩
         have h2 := hwfd.pWrite d e.content
         rw [hd.pWrite] at h2
         exact h2
@@ -680,7 +696,8 @@ theorem find?_publish_of (m : FMap) (d : Str) (c : Bytes) (hd : m.find? d = some
     (k : Str) :
     (memPublish m d c).find? k = if k = d then some (copiedEntry c) else m.find? k := by
   unfold memPublish
-  simp only [hd, FMap.find?_insert]
+  have hft : fileEntryNow.ftype = .file := rfl
+  simp only [hd, hft, ↓reduceIte, FMap.find?_insert]
   split <;> rfl
 
 /-- What a successful `move_file` leaves behind: as `Copied`, and the source key is gone. -/
@@ -1391,9 +1408,7 @@ theorem FMap.erase_absent (m : FMap) (k : Str) (h : m.find? k = none) : m.erase 
 
 theorem FreshDest.pCreateDir {m : FMap} {d : Str} (h : FreshDest m d) :
     Mem.pCreateDir m d = (.ok (), m.insert d dirEntryNow) := by
-  obtain ⟨pe, hpe, _⟩ := h.parent
-  have hc : m.contains (parentInternal d) = true := (FMap.contains_iff _ _).2 ⟨pe, hpe⟩
-  simp [Mem.pCreateDir, h.parentOk, Mem.createDir_fresh m d h.slash hc h.absent, Res.withPath]
+  simp [Mem.pCreateDir, h.parentOk, Mem.createDir_fresh m d h.slash h.parent h.absent, Res.withPath]
 
 /-- the directory `S` of `ms` holds only files, with canonical names -/
 structure FlatDir (ms : FMap) (S : Str) : Prop where
